@@ -462,6 +462,53 @@ def run_c03(ck, fb, fbd):
     bool_storage_swap_rule(ck, fb)
     collapse_rule(ck, fb)
     rm_rules(ck, fb)
+    resize_arg_rule(c)
+
+
+def resize_arg_rule(c):
+    """the property arrays are indexed by handle, i.e. by *physical* position: the size handed to resize_Kprops is the
+    physical entity count after the call's mutation - never the logical count, which is smaller while deferred deletions are
+    pending (round 5, C03i: add_n_vertices sized the arrays to n_logical_vertices() + n)"""
+    import re
+    from .canon import Canon
+    ck, fb = c.ck, c.fb
+    ck.rule("C03.size", "every resize_Kprops(x) of the kernel passes the physical entity count of kind K as it is after the mutation (n_K(), the size of the definition array, count + n directly before `count += n`) or 0 in clear(); a logical / deleted count in x is a violation, any other expression is not judged")
+    PHYS = {"v": (r"n_vertices_|n_vertices\(\)",), "e": (r"n_edges\(\)|edges_\.size\(\)",), "f": (r"n_faces\(\)|faces_\.size\(\)",), "c": (r"n_cells\(\)|cells_\.size\(\)",)}
+    n = 0
+    for f in c.fns:
+        if not f.has_cfg:
+            continue
+        cn = None
+        for b, i, x in f.nodes(("call",)):
+            m = re.fullmatch(r"resize_([vefc])props", x.get("pn", "").split("::")[-1])
+            if not m or b not in f.reach() or not x.get("a"):
+                continue
+            cn = cn or Canon(f)
+            k = m.group(1)
+            phys = PHYS[k][0]
+            a = cn.s(x["a"][0]).strip()
+            while a.startswith("(") and a.endswith(")") and split_balanced(a):
+                a = a[1:-1].strip()
+            a = re.sub(r"^\((?:unsigned int|unsigned long|size_t|std::size_t|int)\)", "", a).strip()
+            n += 1
+            tag = "C03.size:%s:%s" % (f.pq, k)
+            if re.search(r"n_logical_|n_deleted_|_deleted_", a):
+                ck.violate("C03.size", f.loc(x), "%s: resize_%sprops(%s) sizes the property arrays by a logical / deleted count: handles are physical positions, live entities beyond that size lose their values while deletions are pending" % (f.name, k, a[:80]), tag)
+            elif re.fullmatch(r"0\w*", a):
+                ck.ok("C03.size", f.loc(x), "%s: resize_%sprops(0)" % (f.name, k))
+            elif re.fullmatch(phys, a):
+                # no growth of the count after the call
+                later = [cn.s(y) for b2, i2, y in f.tops() if b2 in f.reach() and f.dominates((b, i), (b2, i2)) and (b2, i2) != (b, i) and re.search(r"(\+\+\s*n_vertices_|n_vertices_\s*\+\+|n_vertices_ \+=|(edges_|faces_|cells_)\.(push_back|emplace_back|resize)\()", cn.s(y))]
+                later = [y for y in later if {"v": "n_vertices_", "e": "edges_", "f": "faces_", "c": "cells_"}[k] in y]
+                (ck.ok if not later else lambda r_, w_, t_: ck.violate(r_, w_, t_, tag))("C03.size", f.loc(x), "%s: resize_%sprops(%s) is called with the physical count after the last growth of the definition%s" % (f.name, k, a, "" if not later else " - but followed by " + later[0][:60]))
+            else:
+                m2 = re.fullmatch(r"\(?(%s) \+ (.+?)\)?" % phys, a)
+                nxt = [cn.s(y) for b2, i2, y in f.tops() if b2 == b and i2 > i]
+                if m2 and any(re.fullmatch(r"\(?%s \+= %s\)?" % (re.escape(m2.group(1)), re.escape(m2.group(2))), y) for y in nxt[:2]):
+                    ck.ok("C03.size", f.loc(x), "%s: resize_%sprops(%s) directly before the count grows by the same amount" % (f.name, k, a))
+                else:
+                    ck.cannot_judge("C03.size %s: %s: unknown size expression resize_%sprops(%s)" % (f.loc(x), f.name, k, a[:80]))
+    ck.floor("kernel_resize_props_sites", n, 9)
 
 
 def rm_rules(ck, fb):
